@@ -245,7 +245,7 @@ func TestC20Rapid(t *testing.T) {
 				d := rapid.SampledFrom(pool).Draw(t, "dir")
 				before := obs.FullView(cache)
 				var op string
-				switch rapid.IntRange(0, 3).Draw(t, "what") {
+				switch rapid.IntRange(0, 4).Draw(t, "what") {
 				case 0, 1:
 					if err := os.MkdirAll(d, 0o755); err != nil {
 						t.Skip(err.Error())
@@ -265,6 +265,13 @@ func TestC20Rapid(t *testing.T) {
 				case 3:
 					_ = os.RemoveAll(d)
 					op = "rmdir " + relAll(root, []string{d})[0]
+				case 4:
+					if _, err := os.Stat(d); err != nil {
+						t.Skip("no directory to rename")
+					}
+					c20Seq++
+					_ = os.Rename(d, filepath.Join(root, fmt.Sprintf("away%d", c20Seq)))
+					op = "mvdir-away " + relAll(root, []string{d})[0]
 				}
 				if !m.auto {
 					lastStale = before
